@@ -234,6 +234,47 @@ def run_session(col, binpath, rng, tag, scratch, n_events):
         sess.close()
 
 
+def click_sweep(col, binpath, rng, tag, scratch):
+    """Every cell an operator can hit, systematically: a left click (press + release) on every row of
+    the window in the columns of the touchscreen buttons, of the tab bar and of the map, on each tab,
+    with and without --touchscreen, at terminal heights where the three buttons are and are not
+    equally high. The random sessions hit a given border row rarely; this one hits each once."""
+    i = idx_of(tag)
+    rows, cols = [(24, 100), (26, 100), (31, 80), (25, 60), (50, 150), (12, 40), (27, 100), (40, 132)][i % 8]
+    opts = (["--touchscreen"] if i % 4 != 3 else []) + (["--disable-heading"] if i % 2 else [])
+    lines = aircraft_lines(rng, 3, 52.0, 4.0)
+    sess = session.RadarSession(binpath, [("send", b"".join(lines)), ("sleep", 200)], lat=52.0, lon=4.0, opts=opts, rows=rows, cols=cols, scratch=scratch)
+    inp = {"scenario": "click sweep", "options": opts, "size": [rows, cols], "tag": tag}
+    try:
+        sess.wait_connected()
+        sess.p.pump(0.5)
+        col.count("sessions")
+        col.cls(f"session|click_sweep|touch={'--touchscreen' in opts}")
+        columns = sorted({0, 1, 2, 5, 9, 10, 11, 12, 21, 37, 44, 49, cols // 2, cols - 2, cols - 1})
+        for tab in ("F1", "F2", "F3") if i % 2 == 0 else ("F1", "F4", "F5", "F2"):
+            for r in range(rows):
+                for c in columns:
+                    if c >= cols:
+                        continue
+                    # a click may select another tab (the tab bar): go back to the one under test
+                    sess.p.write(procs.KEYS[tab] + procs.mouse("down", c, r) + procs.mouse("up", c, r))
+                    sess.p.pump(0.004)
+                    col.count("events", 2)
+                sess.p.pump(0.03)
+                if not sess.p.alive():
+                    sess.p.pump(0.3)
+                    loc = sess.panic_location()
+                    col.add("C17", f"C17|terminated_before_quit|{loc or ('status ' + str(sess.p.p.returncode))}", f"radar exited with status {sess.p.p.returncode} (panic at {loc}) after left clicks on row {r} (0-based) of a {rows}x{cols} terminal, tab {tab}, options {opts}; no quit was requested", dict(inp, row=r, tab=tab))
+                    return
+            col.cls(f"event|click_sweep|{tab}")
+        how = rng.choice(["q", "CtrlC"])
+        sess.key(how)
+        check_exit(col, sess, f"'{how}'", "click_sweep", inp)
+        col.count("quits_checked")
+    finally:
+        sess.close()
+
+
 def quit_while_waiting(col, binpath, rng, tag, scratch):
     how = rng.choice(["q", "CtrlC"])
     pre = rng.choice([[], ["F3", "Down"], ["x", "Tab"]])
@@ -337,6 +378,17 @@ CLI_CASES = [
     ("port_too_big", ["--lat", "1", "--long", "1", "--port", "70000"]),
     ("port_not_number", ["--lat", "1", "--long", "1", "--port", "http"]),
     ("host_not_ip", ["--lat", "1", "--long", "1", "--host", "not an ip"]),
+    ("host_ipv6_loopback", ["--lat", "1", "--long", "1", "--host", "::1"]),
+    ("host_ipv6_any", ["--lat", "1", "--long", "1", "--host", "::"]),
+    ("host_ipv6_mapped", ["--lat", "1", "--long", "1", "--host", "::ffff:127.0.0.1"]),
+    ("host_ipv6_link_local", ["--lat", "1", "--long", "1", "--host", "fe80::1"]),
+    ("host_name", ["--lat", "1", "--long", "1", "--host", "localhost"]),
+    ("host_empty", ["--lat", "1", "--long", "1", "--host", ""]),
+    ("host_octet_too_big", ["--lat", "1", "--long", "1", "--host", "256.1.1.1"]),
+    ("host_with_port", ["--lat", "1", "--long", "1", "--host", "127.0.0.1:30002"]),
+    ("host_three_octets", ["--lat", "1", "--long", "1", "--host", "127.0.1"]),
+    ("filter_time_too_big", ["--lat", "1", "--long", "1", "--filter-time", "18446744073709551616"]),
+    ("max_range_empty", ["--lat", "1", "--long", "1", "--max-range="]),
     ("filter_time_negative", ["--lat", "1", "--long", "1", "--filter-time", "-1"]),
     ("scale_not_number", ["--lat", "1", "--long", "1", "--scale", "big"]),
     ("max_range_not_number", ["--lat", "1", "--long", "1", "--max-range", "far"]),
@@ -346,6 +398,11 @@ CLI_CASES = [
     ("airports_missing_file", ["--lat", "1", "--long", "1", "--airports", "/nonexistent/airports.csv"]),
     ("airports_not_csv", ["--lat", "1", "--long", "1", "--airports", "@BADCSV@"]),
 ]
+
+
+# values that are invalid for this client (its --host is an IPv4 address) but would be perfectly good
+# for one that resolves names or speaks IPv6: a usage error or a normal run, never a crash
+MAYBE_VALID = {"host_ipv6_loopback", "host_ipv6_any", "host_ipv6_mapped", "host_ipv6_link_local", "host_name", "host_with_port", "host_three_octets"}
 
 
 def cli_case(col, binpath, name, args, scratch):
@@ -371,7 +428,16 @@ def cli_case(col, binpath, name, args, scratch):
         col.count("cli_cases")
         col.cls(f"cli|{name}")
         diffs = procs.termios_diff(p.termios_before, p.termios_now())
-        if rc is None:
+        if rc is None and name in MAYBE_VALID:
+            # a value a client may well support (a host name, an IPv6 address): then it runs, and
+            # quits like any other session
+            p.write(b"q")
+            rc = p.wait_exit(15)
+            text = p.raw.decode("utf-8", "replace")
+            m = session.PANIC_RE.search(text)
+            if rc != 0 or m:
+                col.add("C17", f"C17|cli_value_accepted_then_unclean_exit|{name}", f"radar ran with this value; after 'q' exit status {rc}, panic at {m.group(1) if m else None}", inp)
+        elif rc is None:
             col.add("C17", f"C17|cli_invalid_value_accepted|{name}", "radar keeps running with an invalid command-line value instead of reporting a usage error", inp)
         elif m or rc == 101 or rc < 0:
             col.add("C17", f"C17|cli_invalid_value_crashes|{name}", f"exit status {rc}, panic at {m.group(1) if m else None}: {text[-300:]!r}", inp)
@@ -399,6 +465,8 @@ def main(a, lcol, col, run_all, scratch, START):
         jobs.append((f"reconnect#{i}", lambda rng, i=i: quit_on_reconnect_screen(lcol, a.bin, rng, f"reconnect#{i}", scratch)))
     for i in range(12 if thorough else 3):
         jobs.append((f"reconnected#{i}", lambda rng, i=i: quit_after_reconnect(lcol, a.bin, rng, f"reconnected#{i}", scratch)))
+    for i in range(32 if thorough else 8):
+        jobs.insert(0, (f"sweep#{i}", lambda rng, i=i: click_sweep(lcol, a.bin, rng, f"sweep#{i}", scratch)))
     for name, args in CLI_CASES:
         jobs.append((f"cli/{name}", lambda rng, name=name, args=args: cli_case(lcol, a.bin, name, args, scratch)))
     if a.replay:
@@ -411,6 +479,8 @@ def main(a, lcol, col, run_all, scratch, START):
             i = int(t.split("#")[1])
             n_events = len(r.get("events", []))
             jobs = [(t, lambda rng: run_session(lcol, a.bin, rng, t, scratch, n_events))]
+            if t.startswith("sweep"):
+                jobs = [(t, lambda rng: click_sweep(lcol, a.bin, rng, t, scratch))]
     # a gpsd stand-in for the sessions started with --gpsd (the others never connect to it)
     # (own loopback address per run - the port is fixed in radar, the address is an option)
     global GPSD_IP
